@@ -329,6 +329,12 @@ Definition round (none : bool) (L : list batch) (k : nat) (s : st) : option st :
   | None => None
   end.
 
+Fixpoint rounds (none : bool) (L : list batch) (k : nat) (n : nat) (s : st) : option st :=
+  match n with
+  | O => Some s
+  | S n' => match round none L k s with Some s' => rounds none L k n' s' | None => None end
+  end.
+
 (* ------------------------------------------------------------------------------------------ *)
 (** * Part 3 — the API-level specification automaton *)
 
